@@ -209,6 +209,13 @@ def model_skip(t: tuple, v: Any) -> bool:
         return model_skip(t[1], v)
     if t[0] == "data":
         return isinstance(v, (bytes, bytearray, str)) or (isinstance(v, H.ArrowSerializableDataclass) and type(v) is not H.DATAS[t[1]])
+    if t[0] == "set" and isinstance(v, (list, tuple)):
+        # frozenset results are encoded in a canonical element order; a sequence given for a frozenset is compared
+        # with the model only when it already is in that order (iteration order of sets is abstracted)
+        try:
+            return [H.sort_key(x) for x in v] != sorted(H.sort_key(x) for x in v)
+        except TypeError:
+            return True
     return False
 
 
